@@ -53,6 +53,14 @@ CLAIMS = {
         note="texts longer than 3 code points outside the claim; utf-8 encode stubbed as injective; "
              "annotate keys ASCII only; the \"{\" style is not covered",
         ref="§4 C09"),
+    "C13": dict(
+        text="Enumerated operation histories (length <= 2 full alphabet, 3-4 core alphabet) run on the "
+             "real transformer and an independent stack-of-matrices model; after each sequence z3 shows "
+             "for ALL probe points in [-1000,1000]^3 that apply() equals the model and reverse(apply(p)) "
+             "= p; matrices, pivot, stack depth, exceptions compared concretely after every operation.",
+        note="history dimension enumerated with concrete parameters (matrices are numpy); the "
+             "solver quantifies only over the probe point; Point.to_vector shimmed",
+        ref="§4 C13"),
     "C07": dict(
         text="Inductive step of I7: after any of 96 call shapes from an arbitrary consistent state "
              "(symbolic feed, power, temperatures, E parameter, tool number) every state property "
